@@ -88,6 +88,10 @@ def run(rep, tier, seed):
     if ctx is not None:
         map_signal(rep, ctx)
         rep.need_witness('c06_join_all_resolved'); join_all(rep, ctx, seed)
+        # server side: the real ServerInner::run / handle_cmd coroutines, ServerHandle futures, signals
+        from props import srvrworld
+        rep.need_witness('c06_srv_graceful_waited', 'c06_srv_forced', 'c06_srv_completion_sent', 'c06_srv_system_stopped', 'c06_srv_two_stops', 'c06_srv_resolved', 'c06_srv_pause_resume')
+        srvrworld.run_server_side(rep, ctx, tier, seed)
 
 
 def chk_stop(w):
